@@ -174,6 +174,10 @@ pub static mut SEEN_PAIRS: Option<Vec<(u8, u32, u8)>> = None;
 pub static mut RET_PAIRS: Option<Vec<(u8, u32, u8)>> = None;
 pub static mut SEEN_ENTRIES: Option<Vec<Entry>> = None;
 pub static mut RET_ENTRIES: Option<Vec<Entry>> = None;
+pub static mut SEEN_ROK: Result<u32, ()> = Err(());
+pub static mut RET_ROK: Result<u32, ()> = Err(());
+pub static mut SEEN_RERR: Result<(), u8> = Ok(());
+pub static mut RET_RERR: Result<(), u8> = Ok(());
 pub static mut SEEN_FVAR: Option<Fvar> = None;
 pub static mut RET_FVAR: Option<Fvar> = None;
 pub static mut SEEN_PERSON: Option<Person> = None;
@@ -251,6 +255,20 @@ impl Guest for Impl {
             CALLS += 1;
             SEEN_ENTRIES = Some(a);
             RET_ENTRIES.take().unwrap()
+        }
+    }
+    fn echo_rok(a: Result<u32, ()>) -> Result<u32, ()> {
+        unsafe {
+            CALLS += 1;
+            SEEN_ROK = a;
+            RET_ROK
+        }
+    }
+    fn echo_rerr(a: Result<(), u8>) -> Result<(), u8> {
+        unsafe {
+            CALLS += 1;
+            SEEN_RERR = a;
+            RET_RERR
         }
     }
     fn echo_fvar(a: Fvar) -> Fvar {
@@ -1354,6 +1372,28 @@ mod proofs {
             let r = verif::val::sinks::send_fvar(fvar_of(c, b));
             kani::assert(FVAR_CALLS == 1 && HOST_FVAR == (c as i32, b), "the host lifts the case and exactly the payload bits the guest sent");
             kani::assert(fvar_bits(&r) == (rc, rb), "the guest receives the case and exactly the payload bits the host returned");
+        }
+    }
+
+    /// result<u32> and result<_, u8>: results with one payload type only
+    #[kani::proof]
+    pub fn c05_result_with_one_payload_unchanged_both_ways() {
+        let err: bool = kani::any();
+        let rerr: bool = kani::any();
+        let (v, rv): (u32, u32) = (kani::any(), kani::any());
+        let only_ok: bool = kani::any();
+        unsafe {
+            if only_ok {
+                RET_ROK = if rerr { Err(()) } else { Ok(rv) };
+                let ret = _export_echo_rok_cabi::<Impl>(err as i32, if err { 0 } else { v as i32 });
+                kani::assert(CALLS == 1 && SEEN_ROK == if err { Err(()) } else { Ok(v) }, "result<u32> arrives unchanged");
+                kani::assert(rd::<u8>(ret, 0) == rerr as u8 && (rerr || rd::<u32>(ret, 4) == rv), "result<u32> is stored canonically (discriminant @0, ok payload @4)");
+            } else {
+                RET_RERR = if rerr { Err(rv as u8) } else { Ok(()) };
+                let ret = _export_echo_rerr_cabi::<Impl>(err as i32, if err { (v as u8) as i32 } else { 0 });
+                kani::assert(CALLS == 1 && SEEN_RERR == if err { Err(v as u8) } else { Ok(()) }, "result<_, u8> arrives unchanged");
+                kani::assert(rd::<u8>(ret, 0) == rerr as u8 && (!rerr || rd::<u8>(ret, 1) == rv as u8), "result<_, u8> is stored canonically (discriminant @0, err payload @1)");
+            }
         }
     }
 }
